@@ -21,7 +21,7 @@ META = dict(
     decides='no code path discards a validated object, its siblings or its child CAs other than the documented filters',
     undecided='completeness of acceptance inside the rpki crate; the documented filters themselves (C08/C09)',
     trusted_base=['rustc MIR construction + callee resolution'],
-    rules=['K4 outcome tables of 7 processors', 'K1 accept/reject vs returned task list', 'K3 payload vectors drained', 'K1 StoredPoint::_update keeps the old version until complete (shared with C04)'],
+    rules=['K4 outcome tables of 7 processors', 'K1 accept/reject vs returned task list', 'K3 payload vectors drained', 'K1 StoredPoint::_update keeps the old version until complete (shared with C04)', 'K4 unsafe-VRP policy table of process_origin: only `reject` removes (shared with C08)', 'K4 add_roa prefix-length filter (shared with C09)'],
 )
 
 CALLBACK = 'ProcessPubPoint::'
